@@ -38,6 +38,9 @@ pub fn env_of(hash_seed: u64, fake_time: Option<u64>) -> Vec<(String, String)> {
         e.push(("USER".to_string(), format!("usuario{}", hash_seed % 7)));
         e.push(("HOME".to_string(), format!("/home/usuario{}", hash_seed % 7)));
         e.push(("RUST_LOG".to_string(), ["", "error", "debug", "trace"][((hash_seed / 16) % 4) as usize].to_string()));
+        // proc.cpu_count: CPUs visible to the process (0 = all)
+        e.push(("VERIF_CPUS".to_string(), ["0", "1", "2", "5"][((hash_seed / 256) % 4) as usize].to_string()));
+        e.push(("NO_COLOR".to_string(), ["", "1"][((hash_seed / 2) % 2) as usize].to_string()));
         // proc.slow_clock: 0 = real clock; else every monotonic read is 1 ms / 2 s / 1 h later
         e.push(("VERIF_MONO_STEP_NS".to_string(), ["0", "1000000", "2000000000", "3600000000000"][((hash_seed / 64) % 4) as usize].to_string()));
     }
